@@ -433,11 +433,9 @@ func (p *Proxy) handleConnectRequest(ctx *Context, req *http.Request, session *S
 		log.Errorf("martian: got error while flushing response back to client: %v", err)
 	}
 
-	cbw := bufio.NewWriter(cconn)
 	cbr := bufio.NewReader(cconn)
-	defer cbw.Flush()
 
-	copySync := func(w io.Writer, r io.Reader, donec chan<- bool) {
+	copySync := func(w net.Conn, r io.Reader, donec chan<- bool) {
 		if _, err := io.Copy(w, r); err != nil && err != io.EOF {
 			log.Errorf("martian: failed to copy CONNECT tunnel: %v", err)
 		}
@@ -447,8 +445,11 @@ func (p *Proxy) handleConnectRequest(ctx *Context, req *http.Request, session *S
 	}
 
 	donec := make(chan bool, 2)
-	go copySync(cbw, brw, donec)
-	go copySync(brw, cbr, donec)
+	// Client to target: bytes that arrived together with the CONNECT request are still in brw's
+	// read buffer; they are written out first, then the connection is copied directly. Copying
+	// into a bufio.Writer would park them (and everything after them) until its buffer fills.
+	go copySync(cconn, brw, donec)
+	go copySync(conn, cbr, donec)
 
 	log.Debugf("martian: established CONNECT tunnel, proxying traffic")
 	<-donec
